@@ -217,7 +217,7 @@ class Tracer(object):
         for k in self.info.attrs[cname]:
             try:
                 out.append(dec_val(getattr(obj, k)))
-            except sa.orm.exc.ObjectDeletedError:
+            except (sa.orm.exc.ObjectDeletedError, KeyError):
                 out.append(None)
         return out
 
